@@ -35,6 +35,7 @@ mod gossip_queue;
 mod zset_container;
 mod ckpt_recovery;
 mod compaction;
+mod sync_exchange;
 use std::panic;
 
 pub struct Found {
@@ -107,6 +108,7 @@ fn main() {
         "recovery_wal" | "recovered_apply" | "recover_segments" => recovery::search(&pid, &oid, seed),
         "ckpt_recovery" => ckpt_recovery::search(&pid, &oid, seed),
         "compaction" => compaction::search(&pid, &oid, seed),
+        "sync_exchange" => sync_exchange::search(&pid, &oid, seed),
         _ => None,
     };
     match res {
